@@ -17,11 +17,17 @@ IRNG = {"i32": "Rs.I32_MIN Rs.I32_MAX", "i64": "Rs.I64_MIN Rs.I64_MAX"}
 LOG_MACROS = ("trace", "debug", "info", "warn", "error", "log",
               # vls-core: `dbgvals!` (util/debug_utils.rs: debug!-prints its arguments) and `policy_log!` (policy/error.rs:
               # error!/warn! at the level the filter gives the tag) only log
-              "dbgvals", "policy_log")
+              "dbgvals", "policy_log",
+              # util/debug_utils.rs: trace!-prints the enforcement state and the chain state
+              "trace_enforcement_state")
 LEAN_KW = set("""end from at open type instance where then else do let fun match with if in have show by local prefix
 variable universe theorem def namespace section structure class inductive mutual deriving import export private
 protected partial unsafe macro syntax notation infix return for break continue try catch finally mut using extends
 calc Type Prop Sort abbrev example axiom opaque set_option attribute matches""".split())
+
+STATUS_ERRS = {"Status::internal": "Status::internal", "internal_error": "Status::internal",
+               "Status::invalid_argument": "Status::invalid_argument", "invalid_argument": "Status::invalid_argument",
+               "Status::failed_precondition": "Status::failed_precondition", "failed_precondition": "Status::failed_precondition"}
 
 INTLIT = ("intlit",)
 UNIT = ("unit",)
@@ -683,6 +689,11 @@ class FnTranslator:
             return term
         if e[0] == "mcall" and e[2] == "into":
             return self.err_tag(e[1], env, pre)
+        # util/status.rs: `Status::internal(msg)`, `invalid_argument(msg)`, … -- the error class is the constructor, the
+        # message is dropped
+        if e[0] == "call" and e[1][0] == "path" and "::".join(e[1][1]) in STATUS_ERRS:
+            self.dropped.append("message of %s(..)" % "::".join(e[1][1]))
+            return '"%s"' % STATUS_ERRS["::".join(e[1][1])]
         raise RsError("error value outside the subset")
 
     def compat(self, a, b):
@@ -1876,7 +1887,8 @@ class FnTranslator:
             if c[0] == "closure" and len(c[1]) == 1 and self.is_result:
                 body = c[2]
                 if body[0] == "block" and not body[1] and body[2] is not None: body = body[2]
-                if body[0] == "call" and body[1][0] == "path" and body[1][1][-1] == "policy_error":
+                if body[0] == "call" and body[1][0] == "path" and \
+                        (body[1][1][-1] == "policy_error" or "::".join(body[1][1]) in STATUS_ERRS):
                     pre2 = []
                     tag = self.err_tag(body, env, pre2)
                     if pre2: raise RsError("error value with effects")
@@ -2153,6 +2165,8 @@ class FnTranslator:
 
     def mcall(self, e, env, pre, want):
         _, recv, m, turbo, args, line = e
+        if recv == ("path", ["self"]) and self.impl and "%s.%s" % (self.impl, m) in self.u.externals and "self" in env:
+            return self.call_external("%s.%s" % (self.impl, m), [recv] + list(args), env, pre)
         # methods of the translated impl on self
         if recv == ("path", ["self"]) and self.impl and (self.impl, m) in self.u.fi.fns and m not in ("clone",) \
                 and (self.impl, m) not in self.u.fi.decl_only:
@@ -2229,10 +2243,15 @@ class FnTranslator:
             pre.append(("let", v, base))
             self.place_set(recv, "none", env, pre)
             return v, bt, "val"
-        if recv[0] == "field":
-            # `self.inner.method(..)` with `inner` of an opaque type (`Arc<dyn Trait>`): a method external on it
-            pre0 = []
-            _, bt0 = self.expr(recv, env, pre0, None)
+        if recv[0] in ("field", "mcall"):
+            # `self.inner.method(..)` / `self.validator().method(..)` with a receiver of an opaque type
+            # (`Arc<dyn Trait>`): a method external on it
+            pre0, n0 = [], self.n      # (a probe of the receiver's type: must not consume fresh names)
+            try:
+                _, bt0 = self.expr(recv, env, pre0, None)
+            except RsError:
+                bt0 = ("unknown",)
+            self.n = n0
             if bt0[0] in ("struct", "opaque") and "%s.%s" % (bt0[1], m) in self.u.externals:
                 return self.call_external("%s.%s" % (bt0[1], m), [recv] + list(args), env, pre)
         base, bt = self.expr(recv, env, pre, None)
